@@ -338,9 +338,13 @@ func (p *printer) node(n *N) {
 		p.expr(n.X, " ")
 		p.close("}}", n.TrimR)
 	case "verbatim":
-		p.simpleTag("verbatim")
+		p.open("{%", n.TrimL)
+		p.tok("verbatim", "word", " ", "")
+		p.close("%}", false)
 		p.raw(n.S, "text", "")
-		p.simpleTag("endverbatim")
+		p.open("{%", false)
+		p.tok("endverbatim", "word", " ", "")
+		p.close("%}", n.TrimR)
 	case "if":
 		p.tag("if", n, "If")
 		p.expr(n.X, " ")
